@@ -46,7 +46,8 @@ Ltac start H s j :=
   unfold step, with_stream in H; step_cases H; injection H as <-;
   match goal with G : get j (streams (ep st s)) = Some ?x |- _ =>
     pose proof (get_streams_local s _ _ _ (proj1 (proj2 (proj2 (inv_elim st s HI)))) G) as Hx
-  end.
+  end;
+  try match goal with U : is_user ?x = true |- _ => pose proof (is_user_ph _ U) end.
 
 Ltac same x' :=
   match goal with G : get ?j (streams (ep st ?s)) = Some ?x |- _ =>
@@ -76,7 +77,7 @@ Ltac user_ph := right; unfold is_user in *;
   match goal with H : (match ph ?x with _ => _ end) = true |- _ => destruct (ph x); try discriminate end;
   congruence.
 
-Ltac view_eq := unfold view_of; cbn [sw rbuf est rcw rc wst rst ph cl set_sw set_rbuf set_est set_rcw
+Ltac view_eq := unfold view_of, held; cbn [sw rbuf est rcw rc wst rst ph cl set_sw set_rbuf set_est set_rcw
     set_rc set_wst set_rst set_ph set_cl held];
   repeat match goal with E : wst _ = _ |- _ => rewrite E | E : rst _ = _ |- _ => rewrite E
                     | E : cl _ = _ |- _ => rewrite E | E : ph _ = _ |- _ => rewrite E end;
@@ -86,7 +87,7 @@ Ltac field_step s j :=
   let H := fresh "H" in
   intros H; start H s j; unfold upd;
   eapply (step_same st s j); [exact HI|eassumption| | | |reflexivity..];
-  [ view_eq | sl_tac Hx; sl_fin | try user_ph ].
+  [ view_eq | match goal with Hx : sl_ok _ _ _ |- _ => sl_tac Hx end; sl_fin | try user_ph ].
 
 Lemma step_AWrite s j bs st' : step all_fixed st (AWrite s j bs) = Some (Running st') -> Inv st'.
 Proof. field_step s j. Qed.
@@ -108,4 +109,52 @@ Proof. field_step s j. Qed.
 
 Lemma step_ACTakeR s j st' : step all_fixed st (ACTakeR s j) = Some (Running st') -> Inv st'.
 Proof. field_step s j. right. intros P. destruct (l_early _ _ _ Hx) as (_ & _ & ?); eauto. congruence. Qed.
+
+Lemma step_AREof s j st' : step all_fixed st (AREof s j) = Some (Running st') -> Inv st'.
+Proof. field_step s j. right. intros P. destruct (l_early _ _ _ Hx) as (_ & ? & _); eauto. congruence. Qed.
+
+Lemma step_ARConsume s j st' : step all_fixed st (ARConsume s j) = Some (Running st') -> Inv st'.
+Proof.
+  field_step s j.
+  - f_equal. rewrite Heql. rewrite len_dropN by lia. lia.
+  - right. intros P. destruct (l_early _ _ _ Hx) as (_ & ? & _); eauto. congruence.
+Qed.
+
+Lemma local_same_streams s e e' :
+  local_inv s e -> streams e' = streams e -> backlog e' = backlog e -> cfg e' = cfg e -> local_inv s e'.
+Proof. intros [] H1 H2 H3. constructor; rewrite ?H1, ?H2, ?H3; auto. Qed.
+
+Lemma step_AMuxClose s st' : step all_fixed st (AMuxClose s) = Some (Running st') -> Inv st'.
+Proof.
+  intros H. cbn in H. injection H as <-.
+  apply step_ext; auto.
+  eapply local_same_streams; [apply (inv_elim st s HI)|reflexivity..].
+Qed.
+
+Lemma step_ACarrierDown s st' : step all_fixed st (ACarrierDown s) = Some (Running st') -> Inv st'.
+Proof.
+  intros H. cbn in H. destruct (mclosed (ep st (other s))); [|discriminate]. injection H as <-.
+  apply step_ext; auto.
+  eapply local_same_streams; [apply (inv_elim st s HI)|reflexivity..].
+Qed.
+
+Lemma step_AAcceptPop s st' : step all_fixed st (AAcceptPop s) = Some (Running st') -> Inv st'.
+Proof.
+  intros H. unfold step in H. step_cases H. injection H as <-.
+  rename n into j, l into rest, s0 into x.
+  destruct (inv_elim st s HI) as (_ & _ & C & _).
+  pose proof (get_streams_local s _ _ _ C Heqo) as Hx.
+  assert (P : ph x = PBacklog).
+  { destruct (l_backlog _ _ C j) as (x0 & G & P); [rewrite Heql; now left|]. congruence. }
+  apply step_ext; auto.
+  - intros i. rewrite vw_put. destruct (N.eqb i j) eqn:E; [|reflexivity].
+    apply N.eqb_eq in E; subst. rewrite (vw_of _ _ _ Heqo). unfold view_of; cbn. now rewrite P.
+  - destruct C as [Cs Cb Cn Cc]. rewrite Heql in Cn. inversion Cn as [|? ? Hnin Hnd]; subst.
+    constructor; cbn [put_stream set_streams set_backlog streams backlog cfg]; auto.
+    + intros i x0. destruct (N.eq_dec i j) as [->|Hne].
+      * rewrite get_set_eq. intros [= <-]. sl_tac Hx; sl_fin.
+      * rewrite get_set_ne by auto. apply Cs.
+    + intros i Hi. assert (i <> j) by (intros ->; auto).
+      rewrite get_set_ne by auto. apply Cb. rewrite Heql. now right.
+Qed.
 End A.
